@@ -22,3 +22,20 @@ extern crate napi_derive;
 
 #[cfg(feature = "napi")]
 mod lib_napi;
+
+/// Verification-only access to the (already `pub`) items of the private modules.
+/// Compiled only with `--cfg datadog_dd_native_iast_rewriter_js_verif`.
+#[cfg(datadog_dd_native_iast_rewriter_js_verif)]
+pub mod verif_hooks {
+    pub use crate::rewriter::{
+        generate_prefix_stmts, print_js, rewrite_js, Config, OriginalSourceMap, RewrittenOutput,
+    };
+    pub use crate::telemetry::{IastTelemetry, Telemetry, TelemetryVerbosity};
+    pub use crate::transform::transform_status::{Status, TransformStatus};
+    pub use crate::util::{file_name, rnd_string, DefaultFileReader, FileReader};
+    pub use crate::visitor::csi_methods::{CsiMethod, CsiMethods};
+    pub use crate::visitor::literal_visitor::{LiteralInfo, LiteralLocation, LiteralsResult};
+
+    #[cfg(not(feature = "napi"))]
+    pub use crate::lib_wasm::verif_access;
+}
